@@ -342,7 +342,7 @@ Lemma load_ctags_aux_char l : forall p r,
   else None.
 Proof.
   induction l as [|d l IH]; intros p r; cbn [load_ctags_aux forallb filter map].
-  - now rewrite !app_nil_r.
+  - now rewrite !rev'_eq, !app_nil_r.
   - destruct (strip_tilde d) as [neg d'] eqn:E. cbn [fst snd].
     destruct (is_valid_ctag d'); cbn [negb andb]; [|reflexivity].
     destruct neg; cbn [negb map]; rewrite IH; cbn [rev]; rewrite <- ?app_assoc, ?E; reflexivity.
